@@ -1,6 +1,6 @@
 (* DurationProofs.v - the numbers of the report (DurationDefs) are the specified ones (DurationSpec). *)
-From Robsd Require Import Report.DurationSpec Report.ReportProofs Base.DecimalProofs Inv.LsSpec Inv.LsProofs.
-From Coq Require Import Lia Decimal DecimalZ Sorting.Sorted Sorting.Permutation.
+From Robsd Require Import Report.DurationSpec Report.ReportProofs Base.DecimalProofs Base.Sort Inv.LsSpec Inv.LsProofs.
+From Coq Require Import Lia Decimal DecimalZ Znumtheory Sorting.Sorted Sorting.Permutation.
 Local Open Scope N_scope.
 
 (* ---- what the generated constants have to be ------------------------------------------------ *)
@@ -152,7 +152,7 @@ Qed.
 Lemma render_digit z : (0 <= z < 10)%Z -> exists c, render_Z z = [c].
 Proof.
   intros H.
-  assert (E : z = 0 \/ z = 1 \/ z = 2 \/ z = 3 \/ z = 4 \/ z = 5 \/ z = 6 \/ z = 7 \/ z = 8 \/ z = 9)%Z by lia.
+  assert (E : (z = 0 \/ z = 1 \/ z = 2 \/ z = 3 \/ z = 4 \/ z = 5 \/ z = 6 \/ z = 7 \/ z = 8 \/ z = 9)%Z) by lia.
   repeat (destruct E as [->|E]; [eexists; reflexivity|]). subst. eexists; reflexivity.
 Qed.
 
@@ -185,16 +185,14 @@ Proof.
     { split; [apply Z.div_pos; lia|]. apply Z.div_lt_upper_bound; lia. }
     assert (H4 : (0 <= (d mod 3600) mod 60 < 60)%Z) by (apply Z.mod_pos_bound; lia).
     assert (H5 : ((d mod 3600) mod 60 = d mod 60)%Z).
-    { change 3600%Z with (60 * 60)%Z. rewrite Z.rem_mul_r by lia.
-      rewrite Z.add_comm, Z.mul_comm, Z.mod_add by lia. apply Z.mod_mod. lia. }
+    { symmetry. apply Zmod_div_mod; try lia. exists 60%Z. reflexivity. }
     rewrite !cast_int_small by lia. rewrite !pad2_two_digits by lia. rewrite H5. reflexivity. }
   split; [exact E|].
   exists (d / 3600)%Z, ((d mod 3600) / 60)%Z, (d mod 60)%Z. split; [|rewrite E; reflexivity].
   pose proof (Z.div_mod d 3600 ltac:(lia)) as D1.
   pose proof (Z.div_mod (d mod 3600) 60 ltac:(lia)) as D2.
   assert (H5 : ((d mod 3600) mod 60 = d mod 60)%Z).
-  { change 3600%Z with (60 * 60)%Z. rewrite Z.rem_mul_r by lia.
-    rewrite Z.add_comm, Z.mul_comm, Z.mod_add by lia. apply Z.mod_mod. lia. }
+    { symmetry. apply Zmod_div_mod; try lia. exists 60%Z. reflexivity. }
   pose proof (Z.mod_pos_bound d 3600 ltac:(lia)) as B1.
   pose proof (Z.mod_pos_bound d 60 ltac:(lia)) as B2.
   assert (B3 : (0 <= d mod 3600 / 60 < 60)%Z).
@@ -219,11 +217,11 @@ Proof. destruct (Z.ltb_spec delta 0); lia. Qed.
 
 Theorem delta_iff d delta thr :
   (0 <= thr)%Z ->
-  (Z.abs delta <= thr -> format_duration_and_delta d delta thr = format_duration d)%Z /\
-  (thr < Z.abs delta ->
+  ((Z.abs delta <= thr)%Z -> format_duration_and_delta d delta thr = format_duration d) /\
+  ((thr < Z.abs delta)%Z ->
      format_duration_and_delta d delta thr =
        format_duration d ++ [32; 40] ++ [if (delta <? 0)%Z then 45 else 43] ++
-       format_duration (Z.abs delta) ++ [41])%Z.
+       format_duration (Z.abs delta) ++ [41]).
 Proof.
   intros Ht. unfold format_duration_and_delta, delta_suffix. rewrite delta_suppressed_is, !abs_branch.
   destruct (Z.eqb_spec delta 0) as [->|Hz].
@@ -268,7 +266,7 @@ Proof.
     destruct (Z.ltb_spec u (2 * r)) as [H2|H2].
     + destruct (Z.eqb_spec (2 * r - u) 0); [lia|]. reflexivity.
     + replace (2 * r - u)%Z with 0%Z by lia. cbn [Z.eqb andb].
-      rewrite Z.odd_succ. destruct (Z.even q); [lia|reflexivity].
+      rewrite Z.add_1_r, Z.odd_succ. destruct (Z.even q); [lia|reflexivity].
 Qed.
 
 Lemma pick_unit_spec size : pick_unit size_units size = spec_unit size.
@@ -292,9 +290,9 @@ Theorem size_format size :
   (0 <= size)%Z ->
   let '(u, p) := spec_unit size in
   let t := spec_round1 size u in
-  ((1048576 <= size -> u = 1048576 /\ p = [77]) /\
-   (1024 <= size < 1048576 -> u = 1024 /\ p = [75]) /\
-   (size < 1024 -> u = 1 /\ p = []))%Z /\
+  (((1048576 <= size)%Z -> u = 1048576%Z /\ p = [77]) /\
+   ((1024 <= size < 1048576)%Z -> u = 1024%Z /\ p = [75]) /\
+   ((size < 1024)%Z -> u = 1%Z /\ p = [])) /\
   (2 * Z.abs (10 * size - t * u) <= u)%Z /\
   ((2 * Z.abs (10 * size - t * u) = u)%Z -> Z.even t = true) /\
   format_size size = render_Z (t / 10) ++ 46 :: render_Z (t mod 10) ++ p /\
@@ -303,9 +301,9 @@ Proof.
   intros Hs. pose proof (format_size_spec size Hs) as Hf. unfold spec_size_text in Hf.
   pose proof (spec_unit_pos size) as Hu.
   assert (Hunit : let '(u, p) := spec_unit size in
-            ((1048576 <= size -> u = 1048576 /\ p = [77]) /\
-             (1024 <= size < 1048576 -> u = 1024 /\ p = [75]) /\
-             (size < 1024 -> u = 1 /\ p = []))%Z).
+            (((1048576 <= size)%Z -> u = 1048576%Z /\ p = [77]) /\
+             ((1024 <= size < 1048576)%Z -> u = 1024%Z /\ p = [75]) /\
+             ((size < 1024)%Z -> u = 1%Z /\ p = []))).
   { unfold spec_unit. destruct (Z.leb_spec 1048576 size); [repeat split; lia|].
     destruct (Z.leb_spec 1024 size); repeat split; lia. }
   destruct (spec_unit size) as [u p]. cbn [fst] in Hu. cbn zeta.
@@ -318,13 +316,13 @@ Proof.
   assert (Hmod : forall t, (0 <= t mod 10 < 10)%Z) by (intros; apply Z.mod_pos_bound; lia).
   rewrite <- (round_spec size u Hs Hu) in Hf. unfold round_half_even in Hf. fold n q r in Hf.
   destruct (Z.ltb_spec (2 * r) u) as [H1|H1].
-  - repeat split; try exact Hf; try apply Hmod; try nia. intros E. nia.
+  - split; [nia|]. split; [intros E; exfalso; nia|]. split; [exact Hf|apply Hmod].
   - destruct (Z.ltb_spec u (2 * r)) as [H2|H2].
-    + repeat split; try exact Hf; try apply Hmod; try nia. intros E. nia.
+    + split; [nia|]. split; [intros E; exfalso; nia|]. split; [exact Hf|apply Hmod].
     + destruct (Z.even q) eqn:Ev.
-      * repeat split; try exact Hf; try apply Hmod; try nia. intros _. exact Ev.
-      * repeat split; try exact Hf; try apply Hmod; try nia. intros _.
-        rewrite Z.even_succ. rewrite <- Z.negb_even. rewrite Ev. reflexivity.
+      * split; [nia|]. split; [intros _; exact Ev|]. split; [exact Hf|apply Hmod].
+      * split; [nia|]. split; [|split; [exact Hf|apply Hmod]]. intros _.
+        rewrite Z.add_1_r, Z.even_succ, <- Z.negb_even, Ev. reflexivity.
 Qed.
 
 Lemma below_threshold_spec name a :
@@ -414,4 +412,149 @@ Proof.
     + apply andb_true_iff. split; [apply prefixb_spec; eexists; reflexivity|].
       change (skipn 6 (dot_diff_dot ++ d :: b)) with (d :: b). unfold isdigitb.
       apply andb_true_iff. split; apply N.leb_le; lia.
+Qed.
+
+(* ---- the previous invocation --------------------------------------------------------------------------- *)
+
+Lemma cmp_le_refl a : cmp_le a a.
+Proof. apply lt_or_eq_cmp_le. right. reflexivity. Qed.
+
+Lemma cmp_le_antisym a b : cmp_le a b -> cmp_le b a -> a = b.
+Proof.
+  intros H1 H2. apply cmp_le_lt_or_eq in H1. apply cmp_le_lt_or_eq in H2.
+  destruct H1 as [H1|H1]; [|exact H1]. destruct H2 as [H2|H2]; [|symmetry; exact H2].
+  exfalso. apply (blt_irrefl a). eapply blt_trans; eassumption.
+Qed.
+
+Lemma path_max_spec q p :
+  exists x, path_max (Some q) p = Some x /\ (x = q \/ x = p) /\ cmp_le q x /\ cmp_le p x.
+Proof.
+  unfold path_max. destruct (strcmp q p) eqn:E.
+  - apply strcmp_eq in E. subst. exists p. repeat split; auto using cmp_le_refl.
+  - exists p. repeat split; auto using cmp_le_refl. apply lt_or_eq_cmp_le. left. apply strcmp_lt_blt. exact E.
+  - exists q. repeat split; auto using cmp_le_refl. apply lt_or_eq_cmp_le. left. apply strcmp_gt_blt. exact E.
+Qed.
+
+Lemma fold_max_spec L : forall acc,
+  match fold_left path_max L acc with
+  | None => acc = None /\ L = []
+  | Some x => (In x L \/ acc = Some x) /\ (forall y, In y L -> cmp_le y x) /\
+              (forall a, acc = Some a -> cmp_le a x)
+  end.
+Proof.
+  induction L as [|p L IH]; intros acc; cbn [fold_left].
+  - destruct acc as [a|]; [|split; reflexivity].
+    split; [right; reflexivity|]. split; [intros y []|]. intros a' E. injection E as <-. apply cmp_le_refl.
+  - specialize (IH (path_max acc p)).
+    destruct (fold_left path_max L (path_max acc p)) as [x|].
+    + destruct IH as [Hin [Hall Hacc]].
+      destruct acc as [q|].
+      * destruct (path_max_spec q p) as [m [Em [Hm [Hq Hp]]]].
+        pose proof (Hacc m Em) as Hmx. split; [|split].
+        -- destruct Hin as [Hin|Hin]; [left; right; exact Hin|].
+           rewrite Em in Hin. injection Hin as <-. destruct Hm as [->| ->]; [right; reflexivity|left; left; reflexivity].
+        -- intros y [<-|Hy]; [eapply cmp_le_trans; eassumption|apply Hall; exact Hy].
+        -- intros a E. injection E as <-. eapply cmp_le_trans; eassumption.
+      * cbn [path_max] in *. split; [|split].
+        -- destruct Hin as [Hin|Hin]; [left; right; exact Hin|]. injection Hin as <-. left; left; reflexivity.
+        -- intros y [<-|Hy]; [apply Hacc; reflexivity|apply Hall; exact Hy].
+        -- intros a E. discriminate E.
+    + destruct IH as [E _]. destruct acc as [q|]; [|discriminate E].
+      destruct (path_max_spec q p) as [m [Em _]]. rewrite Em in E. discriminate E.
+Qed.
+
+Lemma find_desc_spec (p : bytes -> bool) l :
+  StronglySorted (fun a b => cmp_le b a) l ->
+  match find p l with
+  | None => forall y, In y l -> p y = false
+  | Some x => In x l /\ p x = true /\ forall y, In y l -> p y = true -> cmp_le y x
+  end.
+Proof.
+  induction 1 as [|a l Hs IH Hall]; cbn [find]; [intros y []|].
+  destruct (p a) eqn:Ea.
+  - split; [left; reflexivity|]. split; [exact Ea|]. intros y [<-|Hy] _; [apply cmp_le_refl|].
+    rewrite Forall_forall in Hall. apply Hall. exact Hy.
+  - destruct (find p l) as [x|].
+    + destruct IH as [Hin [Hp Hmax]]. split; [right; exact Hin|]. split; [exact Hp|].
+      intros y [<-|Hy] Hpy; [congruence|apply Hmax; assumption].
+    + intros y [<-|Hy]; [exact Ea|apply IH; exact Hy].
+Qed.
+
+Theorem previous_spec cfg fs : previous_builddir cfg fs = spec_previous cfg fs.
+Proof.
+  unfold previous_builddir, spec_previous. destruct (f_root fs) as [ents|]; [|reflexivity].
+  unfold invocation_find_all.
+  set (L0 := invocation_read (c_robsddir cfg) (c_keepdir cfg) ents).
+  set (p := fun q => negb (beq q (c_builddir cfg))).
+  destruct (isort_sorts L0) as [Hperm Hsorted].
+  assert (Hss : StronglySorted (fun a b => cmp_le b a) (List.rev (isort L0))).
+  { apply ssorted_rev. apply Sorted_StronglySorted; [|exact Hsorted]. intros a b c. apply cmp_le_trans. }
+  pose proof (find_desc_spec p _ Hss) as Hf.
+  pose proof (fold_max_spec (filter p L0) None) as Hm.
+  assert (Hin : forall y, In y (List.rev (isort L0)) <-> In y L0).
+  { intros y. rewrite <- in_rev. split; apply Permutation_in; [apply Permutation_sym|]; exact Hperm. }
+  destruct (find p (List.rev (isort L0))) as [x|]; destruct (fold_left path_max (filter p L0) None) as [m|].
+  - f_equal. destruct Hf as [Hx [Hpx Hmax]]. destruct Hm as [Hmin [Hall _]].
+    destruct Hmin as [Hmin|Hmin]; [|discriminate Hmin]. apply filter_In in Hmin. destruct Hmin as [Hm0 Hpm].
+    apply cmp_le_antisym.
+    + apply Hall. apply filter_In. split; [apply Hin; exact Hx|exact Hpx].
+    + apply Hmax; [apply Hin; exact Hm0|exact Hpm].
+  - exfalso. destruct Hf as [Hx [Hpx _]]. destruct Hm as [_ Hnil].
+    assert (In x (filter p L0)) by (apply filter_In; split; [apply Hin; exact Hx|exact Hpx]).
+    rewrite Hnil in H. destruct H.
+  - exfalso. destruct Hm as [[Hmin|Hmin] _]; [|discriminate Hmin].
+    apply filter_In in Hmin. destruct Hmin as [Hm0 Hpm]. rewrite (Hf m) in Hpm; [discriminate Hpm|apply Hin; exact Hm0].
+  - reflexivity.
+Qed.
+
+Theorem report_sizes_spec m cfg fs :
+  (forall cur, f_rel fs = Some cur -> Forall (fun f => (0 <= rf_size f)%Z) cur) ->
+  report_sizes m cfg fs = spec_sizes m cfg fs.
+Proof.
+  intros H. unfold report_sizes, spec_sizes. rewrite previous_spec.
+  destruct m; try reflexivity. destruct (spec_previous cfg fs) as [prev|]; [|reflexivity].
+  destruct (f_rel fs) as [cur|] eqn:E; [|reflexivity]. apply size_lines_spec. apply H. reflexivity.
+Qed.
+
+(* the previous invocation is the greatest other directory of robsddir *)
+Theorem previous_is_greatest cfg fs ents p :
+  f_root fs = Some ents ->
+  previous_builddir cfg fs = Some p ->
+  In p (invocation_read (c_robsddir cfg) (c_keepdir cfg) ents) /\ p <> c_builddir cfg /\
+  forall q, In q (invocation_read (c_robsddir cfg) (c_keepdir cfg) ents) -> q <> c_builddir cfg -> cmp_le q p.
+Proof.
+  intros Er. rewrite previous_spec. unfold spec_previous. rewrite Er. intros E.
+  pose proof (fold_max_spec (filter (fun q => negb (beq q (c_builddir cfg)))
+                (invocation_read (c_robsddir cfg) (c_keepdir cfg) ents)) None) as Hm.
+  rewrite E in Hm. destruct Hm as [[Hin|Hin] [Hall _]]; [|discriminate Hin].
+  apply filter_In in Hin. destruct Hin as [Hin Hp]. split; [exact Hin|]. split.
+  - intros ->. rewrite beq_refl in Hp. discriminate Hp.
+  - intros q Hq Hne. apply Hall. apply filter_In. split; [exact Hq|].
+    destruct (beq_spec q (c_builddir cfg)); [contradiction|reflexivity].
+Qed.
+
+(* ---- the oracles accept the model's own output ----------------------------------------------------------- *)
+
+Theorem model_passes_duration_oracles x rows rep :
+  rows_of x = Some rows ->
+  report_struct_rows (x_mode x) (cfg_of x) rows (files_of x) = ROk rep ->
+  spec_ok_total x (rp_duration rep) = true /\
+  (forall k r, nth_error (filter (spec_shown (x_mode x) (cfg_of x) (files_of x)) rows) k = Some r ->
+     spec_ok_step_duration x k (step_duration r) = true) /\
+  spec_ok_shell x (render_Z (sh_total (x_mode x) rows)) = true.
+Proof.
+  intros E H. split; [|split].
+  - unfold spec_ok_total. rewrite E. rewrite (report_duration_line _ _ _ _ _ H).
+    destruct (total_spec (x_mode x) rows) as [_ ->].
+    destruct (spec_total (x_mode x) rows) as [d delta]. cbn [fst snd].
+    destruct (in_range d && delta_in_range delta) eqn:Er; [|reflexivity].
+    apply andb_true_iff in Er. destruct Er as [E1 E2].
+    apply beq_eq. apply duration_text_spec; [lia|exact E1|exact E2].
+  - intros k r Hk. unfold spec_ok_step_duration. rewrite E, Hk.
+    destruct (in_range (r_duration r) && delta_in_range (r_delta r)) eqn:Er; [|reflexivity].
+    apply andb_true_iff in Er. destruct Er as [E1 E2].
+    apply beq_eq. unfold step_duration. destruct thresholds_are as [_ [-> _]].
+    apply duration_text_spec; [lia|exact E1|exact E2].
+  - unfold spec_ok_shell. rewrite E. apply beq_eq.
+    destruct (shell_equals_C (x_mode x) rows) as [-> ->]. reflexivity.
 Qed.
